@@ -730,9 +730,11 @@ func (ma *modAnalysis) region(fn *ssa.Function, in map[*ssa.BasicBlock]bool) *mo
 							ms.shape("G_sent").any = true
 							ms.shape("G_sent").nonCell = true
 						}
-						if _, ok := ma.w.db.Ghosts["lastSent"]; ok {
-							ms.shape("G_lastSent").any = true
-							ms.shape("G_lastSent").nonCell = true
+						for name := range ma.w.db.Ghosts {
+							if strings.HasPrefix(name, "lastSent") {
+								ms.shape("G_" + name).any = true
+								ms.shape("G_" + name).nonCell = true
+							}
 						}
 					}
 				}
@@ -741,9 +743,11 @@ func (ma *modAnalysis) region(fn *ssa.Function, in map[*ssa.BasicBlock]bool) *mo
 					ms.shape("G_sent").any = true
 					ms.shape("G_sent").nonCell = true
 				}
-				if _, ok := ma.w.db.Ghosts["lastSent"]; ok {
-					ms.shape("G_lastSent").any = true
-					ms.shape("G_lastSent").nonCell = true
+				for name := range ma.w.db.Ghosts {
+					if strings.HasPrefix(name, "lastSent") {
+						ms.shape("G_" + name).any = true
+						ms.shape("G_" + name).nonCell = true
+					}
 				}
 			case *ssa.Go:
 				// a spawned goroutine runs on objects handed over to it (ownership discipline, C13 `moves`/`owned`):
